@@ -474,9 +474,11 @@ def main():
              files={k: v[:16] for k, v in sorted(ref_trees[sd].items())[:12]},
              address_order_reference=addr_info(out / ref / sd).get("order", [])[:24],
              address_order_compared=addr_info(out / builds[0] / sd).get("order", [])[:24]),
-        dict(design=hands[0] if hands else sd, kind="hand written" if hands else "generated",
-             certificate=[l for l in cert if l.split()[1].startswith((hands[0] if hands else sd) + ".")][:2]),
     ]
+    if cert_ok:
+        cd_, cs_ = cert_pairs.get(tuple(cert_ok[0].split()[1:3]), (None, None))
+        rep.cov["samples"].append(dict(kind="shuffled vs unshuffled post-processed circuit, verified certificate", design=cd_, shuffled_build=cs_,
+                                       program=prog_of.get(cd_), driver_output=cert_ok[0]))
     rep.assumptions += [
         "part (B) is a test: it samples heap layouts (perturbed operator new, glibc malloc tunables, ASLR) and node permutations (shuffleNodes is seeded "
         "with a default-constructed mt19937: k calls give k fixed permutations); it does not quantify over all of them",
